@@ -10,8 +10,9 @@ problem dict:
   m, n, rows: [[(col, Fraction), …] per row] (1-based cols), cov: [{"dim","width","v":[Fraction…]}],
   rhs: [Fraction], family: str, kernel: [[Fraction]*n …] (basis of ker A), defect: int
 """
+import concurrent.futures
 from fractions import Fraction as F
-from .core import float2hex
+from .core import float2hex, run_cases
 
 
 # ------------------------------------------------------------------ exact linear algebra
@@ -232,17 +233,225 @@ def gen_levelling(rng, nmax=10):
     return len(rows), len(unk), rows, "levelling"
 
 
+# ---- free geodetic networks: exact Jacobians with a datum defect of 3, 4 (or 6) -------------------------------
+#
+# The Jacobian of a distance between points i, j is (-dx, -dy, dx, dy)/d; of a direction from station s to target t
+# it is (dy, -dx, -dy, dx)/d^2 with -1 at the station's orientation unknown.  Multiplying a ROW by a positive number
+# changes neither the kernel nor the nature of the problem (the solvers see a matrix, not a network), so every row
+# is scaled to small dyadic rationals: distance rows by d, direction rows by d^2 / 2^k.  The kernel is the datum of
+# the free network, exactly: two translations + rotation (distances, with or without directions: defect 3),
+# + scale (directions only: defect 4); space networks of slope / horizontal distances and height differences:
+# three translations + rotation about the vertical (defect 4); slope distances only: 6.
+# Several kernel vectors of comparable size on a regularisation subset are what makes the solvers' pivoting among
+# the null-space vectors (AdjCholDec's Gram-Schmidt g_perm, GSO's second stage, svd's min_subset_x) do real work.
+
+FREE_KINDS = ("dist2d", "distdir2d", "dir2d", "space")
+FREE_DEFECT = {"dist2d": 3, "distdir2d": 3, "dir2d": 4, "space": 4, "dist3d": 6}
+
+
+def _pow2_at_least(v):
+    q = 1
+    while q < v:
+        q *= 2
+    return q
+
+
+def _free_net_once(rng, kind):
+    dim = 3 if kind in ("space", "dist3d") else 2
+    P = rng.randint(4, 5) if dim == 3 else rng.randint(4, 6)
+    pts = set()
+    while len(pts) < P:
+        pts.add((rng.randint(-4, 4), rng.randint(-4, 4)) + ((rng.randint(-2, 2),) if dim == 3 else ()))
+    pts = sorted(pts)
+    rng.shuffle(pts)
+    pairs = [(i, j) for i in range(P) for j in range(i + 1, P)]
+    dens = rng.choice([0.7, 0.85, 1.0])
+    stations = []
+    if kind == "dir2d":
+        stations = rng.sample(range(P), rng.randint(3, P))
+    elif kind == "distdir2d":
+        stations = rng.sample(range(P), rng.randint(1, 3))
+    # unknown labels: ('x'|'y'|'z', point) and ('o', station)
+    labels = []
+    for i in range(P):
+        labels += [(c, i) for c in "xyz"[:dim]]
+        if i in stations:
+            labels.append(("o", i))
+    layout = rng.choice(["points", "shuffled", "shuffled", "point-blocks"])
+    if layout == "shuffled":
+        rng.shuffle(labels)
+    elif layout == "point-blocks":
+        order = list(range(P))
+        rng.shuffle(order)
+        labels = [l for i in order for l in labels if l[1] == i]
+    col = {l: k + 1 for k, l in enumerate(labels)}
+    rows = []
+
+    def add(entries):
+        r = sorted((col[l], F(v)) for l, v in entries if v != 0)
+        if r:
+            rows.append(r)
+
+    if kind in ("dist2d", "distdir2d", "space", "dist3d"):
+        for i, j in pairs:
+            if rng.random() > dens:
+                continue
+            d = [b - a for a, b in zip(pts[i], pts[j])]
+            horizontal = kind == "space" and rng.random() < 0.3
+            k = 2 if horizontal else dim
+            sc = F(1, rng.choice([1, 1, 2]))
+            add([(("xyz"[c], i), -d[c] * sc) for c in range(k)] + [(("xyz"[c], j), d[c] * sc) for c in range(k)])
+    if kind == "space":
+        for i, j in pairs:
+            if rng.random() < 0.6:
+                add([(("z", i), -1), (("z", j), 1)])
+    for s in stations:
+        targets = [t for t in range(P) if t != s and rng.random() < max(dens, 0.75)]
+        if len(targets) < 2:
+            targets = rng.sample([t for t in range(P) if t != s], 2)
+        for t in targets:
+            dx, dy = pts[t][0] - pts[s][0], pts[t][1] - pts[s][1]
+            d2 = dx * dx + dy * dy
+            q = _pow2_at_least(d2)
+            add([(("x", s), F(dy, q)), (("y", s), F(-dx, q)), (("x", t), F(-dy, q)), (("y", t), F(dx, q)), (("o", s), F(-d2, q))])
+    rng.shuffle(rows)
+    return len(rows), len(labels), rows, labels
+
+
+def gen_free_net(rng, kind=None):
+    """(m, n, rows, family, labels) of a free network whose exact defect is FREE_DEFECT[kind]"""
+    kind = kind or rng.choice(FREE_KINDS)
+    for _ in range(200):
+        m, n, rows, labels = _free_net_once(rng, kind)
+        if m < n - FREE_DEFECT[kind]:
+            continue
+        if {c for r in rows for c, _ in r} != set(range(1, n + 1)):
+            continue
+        A = [[F(0)] * n for _ in range(m)]
+        for i, r in enumerate(rows):
+            for c, v in r:
+                A[i][c - 1] += v
+        if n - rank(A) == FREE_DEFECT[kind]:
+            return m, n, rows, "free-" + kind, labels
+    raise RuntimeError("gen_free_net: no rigid network of kind " + kind)
+
+
+def gen_parts(rng):
+    """a determined part (network with two points held fixed, or a levelling net with a fixed node) and an undetermined
+    part (free network or free levelling net) side by side, unknowns interleaved, rows shuffled: the kernel lives on
+    the unknowns of the second part only (a solver that names an unknown of the first part as dependent is wrong)"""
+    def det_part():
+        if rng.random() < 0.5:
+            while True:
+                m, n, rows, fam = gen_levelling(rng, 6)
+                A = [[F(0)] * n for _ in range(m)]
+                for i, r in enumerate(rows):
+                    for c, v in r:
+                        A[i][c - 1] += v
+                if rank(A) == n:
+                    return m, n, rows
+        while True:
+            m, n, rows, fam, labels = gen_free_net(rng, rng.choice(["dist2d", "distdir2d"]))
+            fixed = set(rng.sample(sorted({l[1] for l in labels}), 2))
+            keep = [k + 1 for k, l in enumerate(labels) if not (l[0] in "xyz" and l[1] in fixed)]
+            ren = {c: k + 1 for k, c in enumerate(keep)}
+            rows2 = [[(ren[c], v) for c, v in r if c in ren] for r in rows]
+            rows2 = [r for r in rows2 if r]
+            A = [[F(0)] * len(keep) for _ in rows2]
+            for i, r in enumerate(rows2):
+                for c, v in r:
+                    A[i][c - 1] += v
+            if rows2 and rank(A) == len(keep) and {c for r in rows2 for c, _ in r} == set(range(1, len(keep) + 1)):
+                return len(rows2), len(keep), rows2
+
+    def free_part():
+        if rng.random() < 0.4:
+            while True:
+                m, n, rows, fam = gen_levelling(rng, 5)
+                A = [[F(0)] * n for _ in range(m)]
+                for i, r in enumerate(rows):
+                    for c, v in r:
+                        A[i][c - 1] += v
+                if rank(A) < n:
+                    return m, n, rows
+        m, n, rows, fam, labels = gen_free_net(rng, rng.choice(["dist2d", "dist2d", "distdir2d", "dir2d"]))
+        return m, n, rows
+
+    m1, n1, r1 = det_part()
+    m2, n2, r2 = free_part()
+    order = list(range(n1 + n2))
+    rng.shuffle(order)                     # order[old] = new column (0-based)
+    rows = [sorted((order[c - 1] + 1, v) for c, v in r) for r in r1] + \
+           [sorted((order[n1 + c - 1] + 1, v) for c, v in r) for r in r2]
+    rng.shuffle(rows)
+    part = [0] * (n1 + n2)
+    for c in range(n1 + n2):
+        part[order[c]] = 1 if c < n1 else 2
+    return m1 + m2, n1 + n2, rows, "parts", part
+
+
 def gen_problem(rng, family=None, correlated=None, min_defect=None):
+    """family: None (dense / levelling, the historical mix) | 'dense' | 'levelling' | 'free' | 'free-<kind>' | 'parts'"""
     family = family or rng.choice(["dense", "dense", "levelling", "levelling"])
-    m, n, rows, fam = gen_dense(rng, min_defect=min_defect) if family == "dense" else gen_levelling(rng)
+    extra = {}
+    if family == "dense":
+        m, n, rows, fam = gen_dense(rng, min_defect=min_defect)
+    elif family == "levelling":
+        m, n, rows, fam = gen_levelling(rng)
+    elif family == "parts":
+        m, n, rows, fam, extra["part"] = gen_parts(rng)
+    elif family.startswith("free"):
+        m, n, rows, fam, extra["labels"] = gen_free_net(rng, family[5:] or None)
+    else:
+        raise ValueError(family)
     if correlated is None:
         correlated = rng.random() < 0.5
     p = {"m": m, "n": n, "rows": rows, "family": fam, "cov": gen_cov(rng, m, correlated),
          "rhs": [F(rng.randint(-8, 8), rng.choice([1, 2, 4])) for _ in range(m)]}
+    p.update(extra)
     p["kernel"] = kernel(dense(p), n)
     p["defect"] = len(p["kernel"])
     p["unit_cov"] = all(b["width"] == 0 and all(x == 1 for x in b["v"]) for b in p["cov"])
     return p
+
+
+def gen_proper_subsets(rng, p, n_res=2, n_non=1):
+    """PROPER regularisation subsets (neither empty nor all unknowns) of a singular problem:
+    up to n_res that resolve the defect and up to n_non that do not, decided exactly: [(S, resolves)].
+    Free networks: the coordinates of some points (what a constrained point is in gama), one point only, one
+    coordinate axis only, orientations only; otherwise random subsets."""
+    n, d = p["n"], p["defect"]
+    labels = p.get("labels")
+    res, non, seen = [], [], set()
+
+    def offer(S):
+        S = sorted(set(S))
+        if not S or len(S) >= n or tuple(S) in seen:
+            return
+        seen.add(tuple(S))
+        ok = resolves(p, S)
+        if ok and len(res) < n_res:
+            res.append((S, True))
+        elif not ok and len(non) < n_non:
+            non.append((S, False))
+
+    for _ in range(60):
+        if len(res) >= n_res and len(non) >= n_non:
+            break
+        style = rng.random()
+        if labels and style < 0.55:
+            ids = sorted({l[1] for l in labels})
+            q = rng.randint(1, len(ids) - 1)
+            pick = set(rng.sample(ids, q))
+            offer([k + 1 for k, l in enumerate(labels) if l[0] in "xyz" and l[1] in pick])
+        elif labels and style < 0.7:
+            ax = rng.choice(sorted({l[0] for l in labels}))
+            offer([k + 1 for k, l in enumerate(labels) if l[0] == ax])
+        elif style < 0.85:
+            offer(rng.sample(range(1, n + 1), rng.randint(max(1, d), n - 1)) if n > 1 else [])
+        else:
+            offer(rng.sample(range(1, n + 1), rng.randint(1, max(1, min(n - 1, d)))) if n > 1 else [])
+    return res + non
 
 
 def gen_subsets(rng, p, k=3):
@@ -278,3 +487,19 @@ def problem_lines(p, minx=None):
         out.append("minx %d %s" % (len(minx), " ".join(map(str, minx))))
     out.append("end")
     return out
+
+
+def run_cases_par(exe, cases, jobs=4, args=()):
+    """`core.run_cases` over `jobs` processes (contiguous chunks; outputs and crash indices as for one process)"""
+    if jobs <= 1 or len(cases) < 4 * jobs:
+        return run_cases(exe, cases, args=args)
+    step = (len(cases) + jobs - 1) // jobs
+    starts = list(range(0, len(cases), step))
+    with concurrent.futures.ThreadPoolExecutor(max_workers=len(starts)) as ex:
+        futs = [ex.submit(run_cases, exe, cases[a:a + step], 900, args) for a in starts]
+        outs, crashes = [], {}
+        for a, f in zip(starts, futs):
+            o, c = f.result()
+            outs += o
+            crashes.update({a + k: v for k, v in c.items()})
+    return outs, crashes
